@@ -1,10 +1,21 @@
 #!/bin/bash
-# runs every quick command on the current tree (regenerates all evidence files)
+# runs every quick command on the current tree (regenerates all evidence files).
+# The committed evidence must describe the UNCHANGED tree: refuses to run when /repo has uncommitted changes
+# (seeded-mutant regression runs use seeded/seedrun.sh, which writes its evidence to a scratch directory instead).
 cd "$(dirname "$0")"
+if [ -n "$(git -C /repo status --porcelain --untracked-files=no)" ] && [ -z "${VERIF_ALLOW_DIRTY:-}" ]; then
+  echo "/repo has uncommitted changes: evidence for commit must come from the clean tree (set VERIF_ALLOW_DIRTY=1 to override)"; exit 2
+fi
+export VERIF_SEED="${VERIF_SEED:-1}" VERIF_TIER=quick
 rc=0
-for id in C01 C02 C03 C04 C05 C06 C07 C08 C09 C10 C11 C12 C13 C14 C15 C16 C18 C19; do
+for id in ${@:-C01 C02 C03 C04 C05 C06 C07 C08 C09 C10 C11 C12 C13 C14 C15 C16 C18 C19}; do
   s=$(date +%s)
-  out=$(./check $id --tier quick 2>&1 | grep -E "^$id:|VIOLATION" | tail -2 | cut -c1-300); r=$?
+  rm -f evidence/$id.json
+  full=$(./check $id --tier quick 2>&1); r=$?
+  out=$(echo "$full" | grep -E "^$id:|VIOLATION" | tail -2 | cut -c1-300)
   e=$(date +%s)
-  echo "== $id quick: $((e-s)) s :: $out"
+  [ -f evidence/$id.json ] || { out="$out [NO EVIDENCE WRITTEN]"; r=3; }
+  [ $r -ne 0 ] && rc=1
+  echo "== $id quick: $((e-s)) s exit=$r :: $out"
 done
+exit $rc
